@@ -6,7 +6,7 @@ import copy
 from ..custom import _custom_marking_builder
 from ..exceptions import CustomContentError
 from ..markings import _MarkingsMixin
-from ..markings.utils import check_tlp_marking
+from ..markings.utils import check_not_marked_with_itself, check_tlp_marking
 from ..properties import (
     HashesProperty, IDProperty, ListProperty, Property, ReferenceProperty,
     SelectorProperty, StringProperty, TimestampProperty, TypeProperty,
@@ -169,6 +169,7 @@ class MarkingDefinition(_STIXBase20, _MarkingsMixin):
 
     def _check_object_constraints(self):
         super(MarkingDefinition, self)._check_object_constraints()
+        check_not_marked_with_itself(self)
         check_tlp_marking(self, '2.0')
 
     def serialize(self, pretty=False, include_optional_defaults=False, **kwargs):
